@@ -83,7 +83,7 @@ static void* opThread(void* arg) {
     if (op->kind == 'g') {
         op->ret = wasmMemoryGrow(op->mem, op->delta);
     } else {
-        op->ret = op->mem->pages;            /* what c.c emits for memory.size */
+        op->ret = wasmMemorySize(op->mem);    /* what c.c emits for memory.size (since ee826ee) */
     }
     finished[me] = 1;
     sem_post(&back);
@@ -156,7 +156,7 @@ static wasmMemory* stressMem;
 static int stressIter;
 static U32 sinks[2 * MAXT];
 static void* stressGrow(void* a) { int i; U32 acc = 0; for (i = 0; i < stressIter; i++) acc += wasmMemoryGrow(stressMem, 1); *(U32*)a = acc; return NULL; }
-static __attribute__((noinline)) U32 memorySize(wasmMemory* m) { return m->pages; }   /* `si = m->pages;` as emitted by c.c */
+static __attribute__((noinline)) U32 memorySize(wasmMemory* m) { return wasmMemorySize(m); }   /* `si = wasmMemorySize(m);` as emitted by c.c */
 static void* stressSize(void* a) { int i; U32 acc = 0; for (i = 0; i < stressIter; i++) acc += memorySize(stressMem); *(U32*)a = acc; return NULL; }
 
 static int cmd_stress(char** argv) {
